@@ -146,6 +146,10 @@ class Tr:
     def e_Subscript(self, n: ast.Subscript) -> str:
         if isinstance(n.slice, ast.Constant) and n.slice.value in (0, 1):
             return f"({self.e(n.value)}).{n.slice.value + 1}"
+        if isinstance(n.slice, ast.Slice) and n.slice.lower is None and n.slice.step is None and n.slice.upper is not None:
+            # xs[:k] with an integer k (Python clips a k beyond the length; a negative k is not accepted here: the caller's
+            # guard must make it positive, see the spec's substitutions)
+            return f"(({self.e(n.value)}).take (Int.toNat {self.e(n.slice.upper)}))"
         raise Untranslatable(f"{self.s.qualname}: subscript {ast.unparse(n)!r}")
 
     def e_UnaryOp(self, n: ast.UnaryOp) -> str:
@@ -449,7 +453,7 @@ class GenLoopTr(Tr):
                 return f"(if {self.e(st.test)} then\n{ind}  ([], {self.state})\n{ind}else\n{ind}  {self.outer(rest, depth + 1)})"
         if isinstance(st, ast.For) and isinstance(st.target, ast.Name) and ast.unparse(st.iter) == self.rows and not st.orelse and not rest:
             v = st.target.id
-            body = self.inner(list(st.body), depth + 3, v)
+            body = self.inner(list(st.body), depth + 2, v)
             return (f"let r := ({self.rows}).foldl (fun (acc : List _ × _ × Bool) {v} =>\n{ind}    let (out, {self.state}, stopped) := acc\n"
                     f"{ind}    if stopped then (out, {self.state}, stopped) else\n{ind}    {body}) ([], {self.state}, false)\n{ind}(r.1, r.2.1)")
         raise Untranslatable(f"{self.s.qualname}: statement {ast.unparse(st).splitlines()[0]!r} outside the loop")
@@ -484,6 +488,92 @@ class GenLoopTr(Tr):
     def function(self, fn: ast.FunctionDef) -> str:
         binders = " ".join(f"({n} : {t})" for n, t in self.s.params)
         body = self.outer(list(fn.body), 1)
+        return f"def {self.s.lean_name} {binders} : {self.s.ret} :=\n  {body}\n"
+
+
+class StateTr(Tr):
+    """Methods that work by side effects on a few pieces of object state (e.g. a cache registry and the files on disk).
+
+    The state is a tuple of Lean variables (`state`, e.g. `("disk", "r")`); the method becomes `state -> state`.
+    `effects` maps the source text of a *call statement* (callee, e.g. `self._remove_from_cache`) to a Lean function that
+    takes the state variables followed by the translated arguments and returns the new state tuple.  Accepted statements:
+    effect calls, local assignments, `if`/`else` (tests resolved by `variants` pick one branch), bare `return`, and
+    `for x in xs:` loops whose body consists of the same plus `break` (the loop becomes a fold over the state and a
+    `stopped` flag; `return` inside a loop is not accepted).
+    """
+
+    def __init__(self, spec: Spec, state: tuple[str, ...], effects: dict[str, str], state_types: tuple[str, ...] = ()):
+        super().__init__(spec)
+        self.state, self.effects, self.state_types = state, effects, state_types
+
+    @property
+    def acc_type(self) -> str:
+        return " × ".join(list(self.state_types) + ["Bool"]) if self.state_types else "_"
+
+    @property
+    def st(self) -> str:
+        return "(" + ", ".join(self.state) + ")"
+
+    def effect(self, st: ast.stmt) -> str | None:
+        if isinstance(st, ast.Expr) and isinstance(st.value, ast.Call):
+            f = ast.unparse(st.value.func)
+            if f in self.effects and not st.value.keywords:
+                args = " ".join(self.e(a) for a in st.value.args)
+                return f"let {self.st} := {self.effects[f]} {' '.join(self.state)} {args}".rstrip()
+        return None
+
+    def stm(self, stmts: list[ast.stmt], depth: int, in_loop: bool) -> str:
+        ind = "  " * depth
+        done = f"({', '.join(self.state)}, false)" if in_loop else self.st
+        stmts = [s for s in stmts if not self.skippable(s)]
+        if not stmts:
+            return done
+        st, rest = stmts[0], stmts[1:]
+        eff = self.effect(st)
+        if eff is not None:
+            return f"{eff}\n{ind}{self.stm(rest, depth, in_loop)}"
+        if isinstance(st, ast.Return) and st.value is None:
+            if in_loop:
+                raise Untranslatable(f"{self.s.qualname}: return inside a loop")
+            return self.st
+        if isinstance(st, ast.Break):
+            if not in_loop:
+                raise Untranslatable(f"{self.s.qualname}: break outside a loop")
+            return f"({', '.join(self.state)}, true)"
+        if isinstance(st, ast.Assign) and len(st.targets) == 1 and isinstance(st.targets[0], ast.Name):
+            return f"let {self.e_Name(st.targets[0])} := {self.e(st.value)}\n{ind}{self.stm(rest, depth, in_loop)}"
+        if isinstance(st, ast.Raise):
+            t = ast.unparse(st)
+            if t in self.s.subst:
+                return self.s.subst[t]
+        if isinstance(st, ast.If):
+            t = ast.unparse(st.test)
+            if t in self.s.variants:
+                return self.stm((list(st.body) if self.s.variants[t] else list(st.orelse)) + rest, depth, in_loop)
+            a = self.stm(list(st.body) + rest, depth + 1, in_loop)
+            b = self.stm(list(st.orelse) + rest, depth + 1, in_loop)
+            return f"(if {self.e(st.test)} then\n{ind}  {a}\n{ind}else\n{ind}  {b})"
+        if isinstance(st, ast.For) and isinstance(st.target, ast.Name) and not st.orelse and not in_loop:
+            v = st.target.id
+            body = self.stm(list(st.body), depth + 2, True)
+            sv = ", ".join(self.state)
+            return (f"let {self.st} := (fun (x : {self.acc_type}) => {self._proj(len(self.state))}) (({self.e(st.iter)}).foldl (fun (acc : {self.acc_type}) {v} =>\n"
+                    f"{ind}    let ({sv}, stopped) := acc\n{ind}    if stopped then ({sv}, stopped) else\n{ind}    {body}) ({sv}, false))\n"
+                    f"{ind}{self.stm(rest, depth, in_loop)}")
+        raise Untranslatable(f"{self.s.qualname}: statement {ast.unparse(st).splitlines()[0]!r}")
+
+    @staticmethod
+    def _proj(n: int) -> str:
+        # ((a, b, ..., stopped) : nested pairs) -> (a, b, ...)
+        parts, cur = [], "x"
+        for _ in range(n):
+            parts.append(f"{cur}.1")
+            cur = f"{cur}.2"
+        return "(" + ", ".join(parts) + ")"
+
+    def function(self, fn: ast.FunctionDef) -> str:
+        binders = " ".join(f"({n} : {t})" for n, t in self.s.params)
+        body = self.stm(list(fn.body), 1, False)
         return f"def {self.s.lean_name} {binders} : {self.s.ret} :=\n  {body}\n"
 
 
